@@ -113,6 +113,18 @@ func genC12(seed uint64) *Plan {
 			g.stepAnnounce(r.Intn(len(g.plan.Peers)))
 		}
 	}
+	if r.Chance(0.35) {
+		// a session that is established after the replacement works with the replaced policy too
+		pi := r.Intn(len(g.plan.Peers))
+		g.add(Step{GapUS: g.gap(), Kind: "peer_notify", Peer: pi, Code: 6, Sub: 4})
+		g.announced[pi] = map[viewKey]uint32{}
+		g.lastAnn[pi] = map[Prefix]AttrSpec{}
+		g.add(Step{GapUS: 300_000 + int64(r.Intn(1_000_000)), Kind: "connect", Peer: pi})
+		g.add(Step{GapUS: 400_000, Kind: "checkpoint"})
+		for k := 0; k < 1+r.Intn(3); k++ {
+			g.stepAnnounce(pi)
+		}
+	}
 	g.checkpoint()
 	return g.plan
 }
